@@ -145,7 +145,7 @@ func (h *c10Recorder) Handle(_ context.Context, header *protocol.RequestHeader, 
 	return nil, nil // no response: handleConnection continues with the next frame
 }
 
-func c10Conn(stream []byte) (handled [][3]int64, consumed int, panicked bool, msg string) {
+func c10Conn(stream []byte, deadline time.Duration) (handled [][3]int64, consumed int, panicked bool, msg string) {
 	rec := &c10Recorder{}
 	srv := &Server{Handler: rec}
 	conn, peer := net.Pipe()
@@ -168,11 +168,15 @@ func c10Conn(stream []byte) (handled [][3]int64, consumed int, panicked bool, ms
 	}()
 	select {
 	case <-done:
-	case <-time.After(20 * time.Second):
+	case <-time.After(deadline):
+		// closing the pipe makes a loop that is blocked in I/O return; one that spins without I/O keeps running
 		_ = conn.Close()
 		_ = peer.Close()
-		<-done
-		msg = "handleConnection did not return"
+		select {
+		case <-done:
+		case <-time.After(5 * time.Second):
+		}
+		msg = fmt.Sprintf("handleConnection did not return within %v although every frame of the stream parses in isolation within a fraction of that", deadline)
 	}
 	_ = conn.Close()
 	consumed = <-wrote
@@ -244,6 +248,44 @@ func c10BadBodies(stream []byte) (bad [][3]any) {
 			return bad
 		}
 	}
+}
+
+// c10SoftDeadline: how long the harness waits for one ParseRequest call. kmsg's generated readers loop over a
+// client-chosen tagged-field count even after the input is exhausted (about 10 ns per iteration: 2^24 -> 0.2 s,
+// 2^31-1 -> 22 s, 2^32-1 -> 44 s on a quiet machine): slow, but it returns an error — outside C10's statement.
+// The quick tier does not wait for such a call (it is left running in its goroutine and recorded as a note);
+// the thorough tier waits long enough to see it return.
+func c10SoftDeadline() time.Duration {
+	if vTier() == "thorough" {
+		return 300 * time.Second
+	}
+	return 5 * time.Second
+}
+
+// c10Timed runs f in its own goroutine and waits at most limit for it.
+func c10Timed(limit time.Duration, f func()) (done bool, took time.Duration) {
+	ch := make(chan struct{})
+	t0 := time.Now()
+	go func() {
+		defer close(ch)
+		f()
+	}()
+	select {
+	case <-ch:
+		return true, time.Since(t0)
+	case <-time.After(limit):
+		return false, time.Since(t0)
+	}
+}
+
+// c10FrameInfo: key/version of the first frame whose request parse is slow, for the evidence note
+func c10Describe(payload []byte) string {
+	if len(payload) >= 4 {
+		k := int16(binary.BigEndian.Uint16(payload))
+		v := int16(binary.BigEndian.Uint16(payload[2:]))
+		return fmt.Sprintf("%s v%d (%d-byte request)", kmsg.NameForKey(k), v, len(payload))
+	}
+	return fmt.Sprintf("%d-byte request", len(payload))
 }
 
 // ---------------------------------------------------------------- generators
@@ -582,7 +624,17 @@ func c10BadFrame(r *vRand, key, ver int16, good []byte) (fr []byte, class string
 	case 2: // valid header, an array length of 0x7fffffff (or a huge compact length) at the start of the body
 		huge := []byte{0x7f, 0xff, 0xff, 0xff}
 		if c10IsFlexible(key, ver) {
-			huge = []byte{0xff, 0xff, 0xff, 0xff, 0x07}
+			// a compact length / tagged-field count; kmsg loops over a tag count (10 ns per iteration), so the
+			// quick tier stays at 2^24 (0.2 s); the thorough tier also uses 2^28 and, rarely, 2^31-1 (22 s)
+			huge = []byte{0x80, 0x80, 0x80, 0x08}
+			if vTier() == "thorough" {
+				switch r.Intn(12) {
+				case 0:
+					huge = []byte{0xff, 0xff, 0xff, 0xff, 0x07}
+				case 1, 2:
+					huge = []byte{0x80, 0x80, 0x80, 0x80, 0x01}
+				}
+			}
 		}
 		return c10FrameOf(append(append(hdr, huge...), r.Bytes(r.Intn(8))...)), "conn-body-oversized-count"
 	case 3: // valid header, random body
@@ -693,9 +745,31 @@ func TestVerifC10(t *testing.T) {
 	var coq, jsons []string
 	fail := func(key, what string, cs c10Case) { rep.Fail(key, key, what, cs) }
 
+	slowNotes := 0
+	// slow: a ParseRequest call that took long (or was not waited for). Slow-but-returning is not a failure: C10
+	// says "a request or an error, never a crash"; the time is spent in kmsg's tag loop.
+	slow := func(what string, took time.Duration, returned bool) {
+		rep.Hist("slow-parse")
+		if slowNotes < 6 {
+			slowNotes++
+			if returned {
+				rep.Notes = append(rep.Notes, fmt.Sprintf("%s: ParseRequest returned after %.1f s — kmsg loops over a client-chosen tagged-field count after the input is exhausted (third-party code, CPU-burn DoS, outside C10's statement)", what, took.Seconds()))
+			} else {
+				rep.Notes = append(rep.Notes, fmt.Sprintf("%s: ParseRequest still running after %.0f s and not waited for in this tier (kmsg tagged-field count loop: 2^31-1 iterations take ~22 s, 2^32-1 ~44 s on a quiet machine, then it returns an error); case skipped", what, took.Seconds()))
+			}
+		}
+	}
 	runHeader := func(cs c10Case) {
 		h := c10ParseHeader(cs.Bytes)
-		q := c10ParseRequest(cs.Bytes)
+		var q c10Req
+		done, took := c10Timed(c10SoftDeadline(), func() { q = c10ParseRequest(cs.Bytes) })
+		if !done {
+			slow(c10Describe(cs.Bytes), took, false)
+			return
+		}
+		if took > time.Second {
+			slow(c10Describe(cs.Bytes), took, true)
+		}
 		if h.panicked || q.panicked {
 			msg := h.msg
 			if msg == "" {
@@ -744,7 +818,18 @@ func TestVerifC10(t *testing.T) {
 	}
 	connN := 0
 	runConn := func(cs c10Case) {
-		handled, consumed, panicked, msg := c10Conn(cs.Bytes)
+		var badBodies [][3]any
+		done, pre := c10Timed(c10SoftDeadline(), func() { badBodies = c10BadBodies(cs.Bytes) })
+		if !done {
+			slow("connection stream of "+fmt.Sprint(len(cs.Bytes))+" bytes ("+cs.Class+")", pre, false)
+			return
+		}
+		if pre > time.Second {
+			slow("connection stream of "+fmt.Sprint(len(cs.Bytes))+" bytes ("+cs.Class+")", pre, true)
+		}
+		// the loop parses each frame once more: "did not return" is judged against the measured parse time
+		deadline := 30*time.Second + 4*pre
+		handled, consumed, panicked, msg := c10Conn(cs.Bytes, deadline)
 		if panicked {
 			key := "panic:connection"
 			if strings.Contains(msg, "slice bounds out of range") {
@@ -759,7 +844,7 @@ func TestVerifC10(t *testing.T) {
 				}
 				cand := shr
 				cand.Bytes = shr.Bytes[4+l:]
-				if _, _, p2, _ := c10Conn(cand.Bytes); !p2 {
+				if _, _, p2, _ := c10Conn(cand.Bytes, 30*time.Second); !p2 {
 					break
 				}
 				shr = cand
@@ -785,7 +870,7 @@ func TestVerifC10(t *testing.T) {
 			items[i] = fmt.Sprintf("(%s, %s, %s)", cqZ(h[0]), cqZ(h[1]), cqZ(h[2]))
 		}
 		var bad []string
-		for _, b := range c10BadBodies(cs.Bytes) {
+		for _, b := range badBodies {
 			bad = append(bad, fmt.Sprintf("(%s, %s, %s)", cqZ(b[0].(int64)), cqZ(b[1].(int64)), cqBytes(b[2].([]byte))))
 		}
 		coq = append(coq, fmt.Sprintf("CConn %s %s %s %d %s", cqBytes(cs.Bytes), cqList(bad), cqList(items), consumed, cqBool(panicked)))
@@ -852,8 +937,14 @@ func TestVerifC10(t *testing.T) {
 			{Kind: "conn", Class: "conn-body-truncated", Bytes: append(c10FrameOf(append(c10HeaderBytes(3, 1, 7, nil), 0, 0, 0, 2, 0, 1)), c10FrameOf(c10HeaderBytes(18, 0, 8, nil))...)},
 			{Kind: "conn", Class: "conn-body-oversized-count", Bytes: c10FrameOf(append(c10HeaderBytes(3, 1, 9, nil), 0x7f, 0xff, 0xff, 0xff))},
 			{Kind: "conn", Class: "conn-body-empty", Bytes: c10FrameOf(c10HeaderBytes(0, 7, 10, nil))},
+			// ListGroups v3 (flexible, body = tagged fields only) announcing 2^24 body tags: kmsg loops that often, then errors
+			{Kind: "conn", Class: "conn-body-oversized-count", Bytes: c10FrameOf(append(append(c10HeaderBytes(16, 3, 0x32, nil), 0), 0x80, 0x80, 0x80, 0x08, 0xf4, 0x3b, 0xed))},
 			{Kind: "frame", Class: "frame-negative", Bytes: []byte{0xff, 0xff, 0xff, 0xff, 1, 2}},
 			{Kind: "frame", Class: "frame-truncated", Bytes: []byte{0x00, 0x10, 0x00, 0x00, 1, 2}},
+		}
+		if vTier() == "thorough" {
+			// the same with 2^31-1 tags (about 22 s of kmsg looping before the error): waited for in this tier only
+			corpus = append(corpus, c10Case{Kind: "conn", Class: "conn-body-oversized-count", Bytes: c10FrameOf(append(append(c10HeaderBytes(16, 3, 0x32, nil), 0), 0xff, 0xff, 0xff, 0xff, 0x07, 0xf4, 0x3b, 0xed))})
 		}
 		for _, cs := range corpus {
 			run(cs)
